@@ -518,6 +518,66 @@ func (g *c08Prog) num() string {
 	return g.floatLit()
 }
 
+// statement-level mutation of a program text: the edits a person makes to a
+// pipeline (delete a call, delete all calls, delete the return or retain
+// block, delete a parameter, duplicate a call, delete a whole declaration),
+// which leave a text that still parses far more often than token-level
+// noise does and so reach the compiler's later phases.
+var c08CallStmRe = regexp.MustCompile(`(?ms)^[ \t]*(?:map )?call [^\n]*\(\n.*?^[ \t]*\)(?:[ \t]*using[ \t]*\(\n.*?^[ \t]*\))?[ \t]*\n`)
+var c08PipeBodyRe = regexp.MustCompile(`(?ms)^\{\n(.*?)(^[ \t]*return[ \t]*\()`)
+var c08ReturnRe = regexp.MustCompile(`(?ms)^[ \t]*return[ \t]*\(\n.*?^[ \t]*\)[ \t]*\n`)
+var c08RetainRe = regexp.MustCompile(`(?ms)^[ \t]*retain[ \t]*\(\n.*?^[ \t]*\)[ \t]*\n`)
+var c08ParamRe = regexp.MustCompile(`(?m)^[ \t]*(?:in|out)[ \t]+[^\n]*,\n`)
+var c08DeclRe = regexp.MustCompile(`(?ms)^(?:stage|pipeline|struct) [^\n]*\(\n.*?^\)[^\n]*\n(?:\{\n.*?^\}\n)?`)
+
+func c08StructMutate(r *hx.Rng, src string) string {
+	cut := func(re *regexp.Regexp) (string, bool) {
+		locs := re.FindAllStringIndex(src, -1)
+		if len(locs) == 0 {
+			return src, false
+		}
+		l := locs[r.Intn(len(locs))]
+		return src[:l[0]] + src[l[1]:], true
+	}
+	for try := 0; try < 6; try++ {
+		switch r.Intn(7) {
+		case 0: // delete one call statement
+			if m, ok := cut(c08CallStmRe); ok {
+				return m
+			}
+		case 1: // delete every call statement of one pipeline
+			locs := c08PipeBodyRe.FindAllStringSubmatchIndex(src, -1)
+			if len(locs) > 0 {
+				l := locs[r.Intn(len(locs))]
+				return src[:l[2]] + src[l[3]:]
+			}
+		case 2: // delete a return block
+			if m, ok := cut(c08ReturnRe); ok {
+				return m
+			}
+		case 3: // delete a retain block
+			if m, ok := cut(c08RetainRe); ok {
+				return m
+			}
+		case 4: // delete a parameter
+			if m, ok := cut(c08ParamRe); ok {
+				return m
+			}
+		case 5: // duplicate a call statement
+			locs := c08CallStmRe.FindAllStringIndex(src, -1)
+			if len(locs) > 0 {
+				l := locs[r.Intn(len(locs))]
+				return src[:l[1]] + "\n" + src[l[0]:l[1]] + src[l[1]:]
+			}
+		default: // delete a whole declaration
+			if m, ok := cut(c08DeclRe); ok {
+				return m
+			}
+		}
+	}
+	return c08MutateProgram(r, src)
+}
+
 // token-level mutation of a program text
 func c08MutateProgram(r *hx.Rng, src string) string {
 	// recover token boundaries by re-scanning: find each token's text in order
@@ -791,6 +851,7 @@ func c08GenPrograms(tier string, r *hx.Rng) {
 			}
 			emitM(m)
 		}
+		emitM(c08StructMutate(r, s))
 		v := g.value(5)
 		emitV(v)
 		emitV(c08MutateProgram(r, v))
@@ -803,6 +864,14 @@ func c08GenPrograms(tier string, r *hx.Rng) {
 	if len(seeds) > 0 {
 		for i := 0; i < 700*mul; i++ {
 			m := hx.Pick(r, seeds)
+			if i%3 == 0 {
+				m = c08StructMutate(r, m)
+				if r.Intn(3) == 0 {
+					m = c08StructMutate(r, m)
+				}
+				emitM(m)
+				continue
+			}
 			for j := 1 + r.Intn(3); j > 0; j-- {
 				m = c08MutateProgram(r, m)
 			}
